@@ -99,11 +99,34 @@ def check(run):
                     lines.append((cid, cmd))
                     # the same operation once more on the same handle, the fault gone: the failed read must not have left
                     # anything behind (a page or a record remembered as "read") that makes rows go missing without an error
-                    if k <= 4 or k >= nreads - 3 or k % 5 == 0:      # (a sample: the output of this phase is large)
+                    if (k <= 4 or k >= nreads - 3 or k % 5 == 0) if quick else (k <= 2 or k >= nreads - 1 or k % 17 == 0):      # (a sample: the output of this phase is large)
                         lines.append((cid + "/again", cmd))
                     meta[cid] = (db, cmd, base, k, short)
                     dist["injections"] += 1
-    res, impl, _ = ops.run_cmds("c12-kth", lines, timeout=2400, sides=("impl",))
+    # one run per database (and per ~4000 commands): the output of this phase is by far the largest of all checks
+    impl, res = {}, {"impl": (0, "", ""), "model": (0, "", "")}
+    chunk, cur_open = [], None
+    def flush():
+        nonlocal chunk
+        if len(chunk) > 1:
+            r, im, _ = ops.run_cmds("c12-kth", chunk, timeout=2400, sides=("impl",))
+            impl.update(im)
+            if r["impl"][0] != 0:
+                res["impl"] = r["impl"]
+        chunk = []
+    for cid_, cmd_ in lines:
+        if cmd_.startswith("db "):
+            flush()
+            cur_open = (cid_, cmd_)
+            chunk = [cur_open]
+            continue
+        chunk.append((cid_, cmd_))
+        if len(chunk) > 4000 and cid_.endswith(("/again",)) is False and not cmd_.startswith("failat "):
+            # cut between cases: the next command is a `failat` that makes a fresh handle
+            nxt = None
+            flush()
+            chunk = [cur_open]
+    flush()
     for cid, (db, cmd, base, k, short) in meta.items():
         run.count()
         out = impl.get(cid)
